@@ -15,7 +15,9 @@ LEVEL = "exploration"
 RULE = ("main: Hypothesis-generated one-sided envelope histories with ageing in {0, 0.5, 2, 10} virtual seconds, a "
         "generated prioritize() (by leaf name, or by top-level folder so that a folder rename re-ranks its children: -1, 0, 1, 2) "
         "and explicit clock advances.  Oracle C: after an event-intake step every entry whose path changed in that step has "
-        "the rank prioritize() gives to its NEW path.  Oracle A (differential, every "
+        "the rank prioritize() gives to its NEW path.  Part urgent: a file ranked -1 is created (possibly inside folders new in "
+        "the same batch) under a long ageing interval; it has to reach the other side before the sync loop ever goes idle "
+        "(sleeps the ageing interval).  Oracle A (differential, every "
         "sync step): SyncState.change is wrapped, the virtual clock frozen for the call, and the returned entry compared "
         "with a reference choice computed on the same state and the same 'now': eligible = pending entries with "
         "priority < 0 or a change flag <= now - ageing; result is None iff none is eligible, otherwise it is in "
@@ -50,7 +52,8 @@ def budget(tier):
     q = tier == "quick"
     return [{"workers": 16, "examples": 200 if q else 5000},
             {"part": "starve", "workers": 16, "examples": 25 if q else 800},
-            {"part": "renotify", "workers": 16, "examples": 40 if q else 1500}]
+            {"part": "renotify", "workers": 16, "examples": 40 if q else 1500},
+            {"part": "urgent", "workers": 16, "examples": 25 if q else 800}]
 
 
 def gen(d, tier):
@@ -236,6 +239,74 @@ def run(trace):
     return Run(trace).execute()
 
 
+# ----------------------------------------------------------------------------- 'immediately' part
+def gen_urgent(d, tier):
+    L, R = d.choice(FLAVOURS)
+    origin = d.int(0, 1)
+    aging = d.choice((2, 10, 100))
+    cfg = {"L": L, "R": R, "salt": d.int(0, 7), "origin": origin, "aging": aging, "prio": {"u": -1}}
+    acts = []
+    if d.bool():
+        acts += [["u", origin, "mkdir", "/old"], ["u", origin, "create", "/old/f", "f0"], ["settle"]]
+    depth = d.int(0, 2)                 # new folders between the root (or /old) and the urgent file
+    par = "/old" if (acts and d.bool()) else ""
+    batch = []
+    for i in range(depth):
+        par = par + "/n%d" % i
+        batch.append(["u", origin, "mkdir", par])
+    batch.append(["u", origin, "create", par + "/u", "urgent"])
+    for i in range(d.int(0, 2)):
+        batch.insert(d.int(0, len(batch)) if False else len(batch), ["u", origin, "create", par + "/p%d" % i, "plain%d" % i])
+    acts += batch
+    return {"cfg": cfg, "acts": acts, "urgent": par + "/u", "rounds": d.int(25, 40)}
+
+
+def run_urgent(trace):
+    """A file the application ranks negative ('immediately') is created -- possibly inside folders that are new in the
+    same batch -- with a long ageing interval; the engine loops run for a while with far less virtual time passing
+    than the ageing interval: the urgent file has to be on the other side by then (its new parent folders with it),
+    while plain files created with it still wait (oracles A and B of the main part stay armed)."""
+    cfg = trace["cfg"]
+    r = Run({"cfg": cfg, "acts": trace["acts"]})
+    if r.crash:
+        return violation("engine_construct", r.crash)
+    case = r.case
+    dest = 1 - cfg["origin"]
+    try:
+        for a in trace["acts"]:
+            if a[0] == "u":
+                r.do_user(a)
+            elif a[0] == "settle":
+                CLOCK.sleep(cfg["aging"] * 1.5)
+                r.do_settle()
+        got_at = None
+        idle_at = None
+        for i in range(trace["rounds"]):
+            for who in ("EL", "ER", "S"):
+                t_before = CLOCK.t
+                r.do_step(who)
+                # the sync loop sleeps the ageing interval when it finds nothing eligible: with a negative-priority
+                # change pending (its event consumed in round 1) that must not happen before the change is through
+                if who == "S" and i >= 1 and CLOCK.t - t_before >= cfg["aging"] and idle_at is None:
+                    idle_at = i + 1
+            if case.snap(dest).get(trace["urgent"]) is not None:
+                got_at = i + 1
+                break
+            if idle_at is not None:
+                break
+        if got_at is None and idle_at is not None:
+            return violation("negative_means_immediately", "%s (prioritize() = -1) was still not propagated when the sync loop went idle and slept the ageing interval (%s s) in round %d; other side holds %s" % (
+                trace["urgent"], cfg["aging"], idle_at, sorted(case.snap(dest))))
+        if got_at is None:
+            return violation("negative_means_immediately", "%s (prioritize() = -1) was not propagated within %d rounds; other side holds %s" % (
+                trace["urgent"], trace["rounds"], sorted(case.snap(dest))))
+        return ok(nontrivial=True, labels=["urgent", "urgent_depth:%d" % sum(1 for a in trace["acts"] if a[0] == "u" and a[2] == "mkdir" and "/n" in a[3])])
+    except Stop as s_:
+        return s_.outcome
+    finally:
+        case.close()
+
+
 # ----------------------------------------------------------------------------- starvation part
 def gen_starve(d, tier):
     L, R = d.choice(FLAVOURS)
@@ -314,4 +385,4 @@ def gen_renotify(d, tier):
     return {"cfg": cfg, "acts": acts}
 
 
-PARTS = {"starve": (gen_starve, run_starve), "renotify": (gen_renotify, run)}
+PARTS = {"starve": (gen_starve, run_starve), "renotify": (gen_renotify, run), "urgent": (gen_urgent, run_urgent)}
